@@ -246,6 +246,7 @@ func runC11(t *vs.Tape, cfg map[string]string) (res vs.Result) {
 	}
 
 	sim := vs.NewSim(vs.ModeSched, t)
+	sim.MapOrderOn = true // ScanBatch ranges a Go map: its order must come from the tape, not from the runtime
 	sim.MaxSteps = 6000
 	timeline := []*kvState{snapshotState(s)}
 	sim.OnStep = func(step int, _ *vs.Task, _ string) {
